@@ -277,11 +277,16 @@ struct DropAfter<F> {
     fut: Option<Pin<Box<F>>>,
     left: Option<usize>,
     polls: Arc<AtomicUsize>,
+    /// tmp directory and the number of files seen in it just before the drop
+    probe: PathBuf,
+    inflight: Arc<AtomicUsize>,
 }
 impl<F: Future> Future for DropAfter<F> {
     type Output = Option<F::Output>;
     fn poll(mut self: Pin<&mut Self>, cx: &mut Context<'_>) -> Poll<Self::Output> {
         if let Some(0) = self.left {
+            let n = std::fs::read_dir(&self.probe).map(|r| r.count()).unwrap_or(0);
+            self.inflight.store(n, Ordering::SeqCst);
             self.fut = None; // the drop: RAII cleanup of everything the future owns runs here
             return Poll::Ready(None);
         }
@@ -511,7 +516,7 @@ fn set_fsize(limit: Option<u64>) {
 
 /// One scenario: first lookup (to completion or dropped after `drop` polls), then a second
 /// lookup with the servers answering 404 only. Returns the two blocks and the number of polls.
-fn scenario(c: &Case, drop_at: Option<usize>) -> (String, String, usize, bool) {
+fn scenario(c: &Case, drop_at: Option<usize>) -> (String, String, usize, bool, usize) {
     let d = setup_dirs(c);
     let rt = tokio::runtime::Builder::new_current_thread().enable_all().build().expect("runtime");
     let out = rt.block_on(async {
@@ -549,6 +554,7 @@ fn scenario(c: &Case, drop_at: Option<usize>) -> (String, String, usize, bool) {
         };
         // ---- first lookup
         let polls = Arc::new(AtomicUsize::new(0));
+        let inflight = Arc::new(AtomicUsize::new(0));
         let wlim = c.env.strip_prefix('w').map(|x| x.parse::<u64>().expect("wlim"));
         let (a, dropped) = {
             let supplier = HttpSymbolSupplier::new(urls.clone(), d.cache.clone(), d.tmp.clone(), d.locals.clone(), Duration::from_millis(c.tmo));
@@ -556,7 +562,7 @@ fn scenario(c: &Case, drop_at: Option<usize>) -> (String, String, usize, bool) {
                 set_fsize(wlim);
             }
             let fut = supplier.locate_symbols(&module);
-            let r = DropAfter { fut: Some(Box::pin(fut)), left: drop_at, polls: polls.clone() }.await;
+            let r = DropAfter { fut: Some(Box::pin(fut)), left: drop_at, polls: polls.clone(), probe: d.tmp.clone(), inflight: inflight.clone() }.await;
             if wlim.is_some() {
                 set_fsize(None);
             }
@@ -575,7 +581,7 @@ fn scenario(c: &Case, drop_at: Option<usize>) -> (String, String, usize, bool) {
         for h in handles {
             h.abort();
         }
-        (a, b, polls.load(Ordering::SeqCst), dropped)
+        (a, b, polls.load(Ordering::SeqCst), dropped, inflight.load(Ordering::SeqCst))
     });
     drop(rt);
     let _ = std::fs::remove_dir_all(&d.base);
@@ -589,7 +595,7 @@ fn strip_q(block: &str) -> String {
 
 fn run(line: &str) -> String {
     let c = parse_case(line);
-    let (a, b, polls, _) = scenario(&c, None);
+    let (a, b, polls, _, _) = scenario(&c, None);
     let mut out = format!("A{{{}}}B{{{}}}", a, b);
     if let Some(n) = c.drop {
         // drop after (n mod polls-to-completion) polls so that the drop happens before
@@ -598,9 +604,9 @@ fn run(line: &str) -> String {
         let mut done = false;
         for attempt in 0..4 {
             let k = if attempt == 3 { 0 } else { n % total };
-            let (x, y, p2, dropped) = scenario(&c, Some(k));
+            let (x, y, p2, dropped, inflight) = scenario(&c, Some(k));
             if dropped {
-                out.push_str(&format!("X{{{}}}Y{{{}}} dropat={}", strip_q(&x), y, k));
+                out.push_str(&format!("X{{{}}}Y{{{}}} dropat={} inflight={}", strip_q(&x), y, k, inflight));
                 done = true;
                 break;
             }
